@@ -3,6 +3,7 @@ package props
 import (
 	"encoding/json"
 	"fmt"
+	"hash/fnv"
 	"reflect"
 	"strings"
 
@@ -100,6 +101,7 @@ func c10Check(c c10Case) (viol string) {
 	}()
 	q := &updogv1.Query{Expr: toProto(c.Tree), GroupBy: c.GroupBy}
 	want := norm(fromProto(q.Expr)).String()
+	c10Poison(want)
 	s0 := queryparser.QueryToString(q)
 	p0, err := queryparser.ParseQuery(s0)
 	if err != nil {
@@ -120,6 +122,50 @@ func c10Check(c c10Case) (viol string) {
 		return fmt.Sprintf("formatting is not stable: %q re-parses and formats to %q", s1, s2)
 	}
 	return ""
+}
+
+// c10Poison: what the formatter and the parser were asked to do BEFORE must not matter. Ahead of every case one tree
+// outside the property's domain (a node without value, a nil operand, an operator without operands - not at the root, so
+// that some text has been produced already) is formatted and one rejected text is parsed; which ones is a function of
+// the case, so that a replay does the same.
+var c10BadTrees = func() []*updogv1.Query {
+	eq := func(c, v string) *updogv1.Query_Expression {
+		return &updogv1.Query_Expression{Value: &updogv1.Query_Expression_Eq{Eq: &updogv1.Query_Expression_Equal{Column: c, Value: v}}}
+	}
+	and := func(es ...*updogv1.Query_Expression) *updogv1.Query_Expression {
+		return &updogv1.Query_Expression{Value: &updogv1.Query_Expression_And_{And: &updogv1.Query_Expression_And{Exprs: es}}}
+	}
+	or := func(es ...*updogv1.Query_Expression) *updogv1.Query_Expression {
+		return &updogv1.Query_Expression{Value: &updogv1.Query_Expression_Or_{Or: &updogv1.Query_Expression_Or{Exprs: es}}}
+	}
+	not := func(e *updogv1.Query_Expression) *updogv1.Query_Expression {
+		return &updogv1.Query_Expression{Value: &updogv1.Query_Expression_Not_{Not: &updogv1.Query_Expression_Not{Expr: e}}}
+	}
+	return []*updogv1.Query{
+		{Expr: and(eq("p", "1"), &updogv1.Query_Expression{})},
+		{Expr: or(eq("p", "1"), nil), GroupBy: []string{"p"}},
+		{Expr: and(eq("p", "1"), not(nil))},
+		{Expr: or(eq("p", "1"), and())},
+		{Expr: not(&updogv1.Query_Expression{}), GroupBy: []string{"p", "q"}},
+		{Expr: nil, GroupBy: []string{"p"}},
+		{Expr: and(eq("p", "1"), or(eq("q", "2"), not(&updogv1.Query_Expression{})))},
+	}
+}()
+
+var c10BadTexts = []string{`p = "1" ^ q = "2"`, `p = "1" ( q = "2" )`, `p = "1" q`, `p = "1" ; c ^`, `p = `, `( p = "1"`, `p = "x`, `=`, `p = "1" ; c , "d"`, `p = $0`, `p = "1" &`}
+
+func c10Poison(key string) {
+	h := fnv.New32a()
+	h.Write([]byte(key))
+	n := int(h.Sum32())
+	func() {
+		defer func() { recover() }()
+		queryparser.QueryToString(c10BadTrees[n%len(c10BadTrees)])
+	}()
+	func() {
+		defer func() { recover() }()
+		queryparser.ParseQuery(c10BadTexts[(n/7)%len(c10BadTexts)])
+	}()
 }
 
 var c10ValueAlphabet = []string{`"`, "a", "\n", "\r", "é", " ", `\`, "%", "\uFFFD", "\xe9"}
